@@ -36,7 +36,7 @@ struct GenTimeMap {  // T = k * tau^2 + c ; useT: the backward rule is written i
 
 template <int DIM> struct GenSpatialMap {
   using VX = Eigen::Matrix<R, Eigen::Dynamic, 1>;
-  int mode;  // 0: p = m0*xi + m1*shift(xi) + b, full dof;  1: same with dof = DIM-1 at odd indices;  2: p = xi + q*xi^2 (element-wise)
+  int mode;  // 0: p = g_i*xi + m1*shift(xi) + b with the INDEX-DEPENDENT gain g_i = m0*(1 + q*index), full dof;  1 / 3: same with dof = DIM-1 at odd / even indices;  2: p = xi + q*xi^2 (element-wise)
   R m0, m1, b, q;
   struct Def { int mode = 0; R m0 = R(1.0), m1 = R(0.0), b = R(0.0), q = R(0.0); };
   static Def &def() { static Def d; return d; }
@@ -49,14 +49,15 @@ template <int DIM> struct GenSpatialMap {
     if ((mode == 1 && (index % 2) == 1) || (mode == 3 && (index % 2) == 0)) return std::max(1, DIM - 1);
     return DIM;
   }
+  R gain(int index) const { return m0 * (1.0 + q * (double)index); }
   VX toPhysical(const VX &xi, int index) const {
-    (void)index;
     VX p(DIM);
     const int dof = (int)xi.size();
     if (mode == 2) { for (int d = 0; d < DIM; d++) p(d) = xi(d) + q * xi(d) * xi(d); return p; }
+    const R gi = gain(index);
     for (int d = 0; d < DIM; d++) {
       R acc = b;
-      if (d < dof) acc = acc + m0 * xi(d);
+      if (d < dof) acc = acc + gi * xi(d);
       if (d >= 1 && d - 1 < dof) acc = acc + m1 * xi(d - 1);
       p(d) = acc;
     }
@@ -66,20 +67,21 @@ template <int DIM> struct GenSpatialMap {
     const int dof = getUnconstrainedDim(index);
     VX xi(dof);
     if (mode == 2) { for (int d = 0; d < dof; d++) xi(d) = p(d); return xi; }
+    const R gi = gain(index);
     for (int e = 0; e < dof; e++) {
       R r = p(e) - b;
       if (e >= 1) r = r - m1 * xi(e - 1);
-      xi(e) = r / m0;
+      xi(e) = r / gi;
     }
     return xi;
   }
   VX backwardGrad(const VX &xi, const VX &g, int index) const {
-    (void)index;
     const int dof = (int)xi.size();
     VX o(dof);
     if (mode == 2) { for (int d = 0; d < dof; d++) o(d) = g(d) * (1.0 + 2.0 * q * xi(d)); return o; }
+    const R gi = gain(index);
     for (int e = 0; e < dof; e++) {
-      R acc = m0 * g(e);
+      R acc = gi * g(e);
       if (e + 1 < DIM) acc = acc + m1 * g(e + 1);
       o(e) = acc;
     }
